@@ -18,23 +18,28 @@ from hv.world import SCEN_DENVER
 KINDS = ["veh", "req", "st", "bs"]
 
 
-def index_cfg(ids: Dict[str, List[str]], export: bool) -> str:
+# what the current tree does (a wrong flag shows as violations of the replay): F19 is repaired in /repo
+INDEX_FLAGS = {"FixReAdd": True}
+
+
+def index_cfg(ids: Dict[str, List[str]], export: bool, flags: Dict[str, bool] = None) -> str:
+    fl = dict(INDEX_FLAGS, **(flags or {}))
     def tset(xs):
         return "{" + ", ".join(f'"{x}"' for x in xs) + "}"
 
     return ("SPECIFICATION Spec\nCONSTANTS\n  Ids <- mcIds\n  Cells <- mcCells\n  SearchOf <- mcSearchOf\n"
-            f"  Export = {'TRUE' if export else 'FALSE'}\nINVARIANT IndexExact\nPROPERTY Immobile\nVIEW view\n"
+            f"  Export = {'TRUE' if export else 'FALSE'}\n  FixReAdd = {'TRUE' if fl['FixReAdd'] else 'FALSE'}\nINVARIANT IndexExact\nPROPERTY Immobile\nVIEW view\n"
             "ACTION_CONSTRAINT Edge\nCHECK_DEADLOCK FALSE\n")
 
 
-def write_mc(ctx: Ctx, name: str, ids: Dict[str, List[str]]) -> str:
+def write_mc(ctx: Ctx, name: str, ids: Dict[str, List[str]], cells: int = 4) -> str:
     def tset(xs):
         return "{" + ", ".join(f'"{x}"' for x in xs) + "}"
 
     arms = " [] ".join(f'k = "{k}" -> {tset(ids[k])}' for k in KINDS[:-1]) + f' [] OTHER -> {tset(ids["bs"])}'
     text = (f"---- MODULE {name} ----\nEXTENDS HiveIndex\n"
             f'mcIds == [k \\in Kinds |-> CASE {arms}]\n'
-            'mcCells == {"c1", "c2", "c3", "c4"}\n'
+            f'mcCells == {tset(["c1", "c2", "c3", "c4"][:cells])}\n'
             'mcSearchOf == [c \\in mcCells |-> IF c \\in {"c1", "c2"} THEN "S1" ELSE "S2"]\n====\n')
     # TLC resolves EXTENDS next to the root module: the generated module lives beside HiveIndex.tla
     from hv.common import SPEC
@@ -203,7 +208,8 @@ def run(ctx: Ctx) -> None:
     distinct = 0
     edges: List[Dict[str, Any]] = []
     for mc, ids in configs:
-        name = write_mc(ctx, mc, ids)
+        # quick: three cells (two in one search cell, one in another: moves within, across and back); thorough: four
+        name = write_mc(ctx, mc, ids, cells=ctx.pick(3, 4))
         cfg = ctx.work / f"{mc}.cfg"
         cfg.write_text(index_cfg(ids, export=True))
         ctx.log(f"TLC HiveIndex {mc} (exhaustive, exporting every transition) ...")
@@ -249,8 +255,7 @@ def run(ctx: Ctx) -> None:
     ctx.coverage["distinct_nontrivial"] = res.distinct
     ctx.coverage["rule"] = "every reachable index state of the bounded model; each of its transitions executed in the real code"
     ctx.coverage["exhaustive"] = True
-    ctx.assumptions += ["histories in which add uses an id not currently present (as the loaders and UpdateRequestsFromFile do)",
-                        "h3.h3_to_parent is trusted for the enclosing search cell"]
+    ctx.assumptions += ["h3.h3_to_parent is trusted for the enclosing search cell"]
     for v in tv.viol:
         f = ctx.work / v["file"]
         ctx.violation(v["c"], f"{v['c']}/{v['s']}", witness=v["w"], line=v["line"], file=v["file"], excerpt=core.excerpt(f, v["line"], before=1, maxlen=400))
